@@ -14,13 +14,21 @@
    accepts in a run of the check has its REAL bytecode judged by [verify]
    (Corr/Run_C04.v), which is how the theorem reaches compiled programs.
 
-   Full statement of the property ("for every program the compiler accepts"):
-     forall p, compiler_accepts p -> verify (codegen p) = true
-   is NOT proved (it needs a model of checker + codegen, owned by C01) and is
-   FALSE of the current tree: the *_refuted theorems below are the bytecode of
-   three accepted programs (known findings, known/C04.json); the harness
-   replays their sources against the real compiler and VM on every run. *)
-From V Require Import Lang.Verify Proofs.VmInv Proofs.VerifyProofs.
+   "For every program the compiler accepts": [C04_codegen_verifies_partial]
+   proves [verify (codegen p) = true] for every core tree [p] (Lang/Ast.v: all
+   expression and statement forms) that satisfies the boolean predicate
+   [accepts] = well typed (operand classes, table indices, key counts) and
+   representable (none of the known families: settime of a non-int64, a value
+   stored into a metric of another type, a condition that is neither bool nor
+   int64), with [codegen] = Lang/Codegen.v, the model of codegen.go that C01's
+   CGen correspondence ties to the real compiler on every run.  Hence
+   [C04_accepted_program_never_faults].  It is "partial" because the tree is
+   the post-checker core form (decorators inlined, no histogram kind) and the
+   real checker is represented by [accepts], not modelled; the unrestricted
+   statement is FALSE of the current tree: the *_refuted theorems below are the
+   bytecode of three accepted programs (known findings, known/C04.json); the
+   harness replays their sources against the real compiler and VM on every run. *)
+From V Require Import Lang.Codegen Lang.Verify Proofs.VmInv Proofs.VerifyProofs Proofs.CodegenVerifies.
 Local Open Scope Z_scope.
 
 Definition checked := VerifyProofs.checked.
@@ -131,7 +139,50 @@ Theorem C04_float_cond_refuted :
   = Fault (FRepr KF64).
 Proof. split; vm_compute; reflexivity. Qed.
 
+(* ---- from the tree to the bytecode: codegen's output verifies ---- *)
+
+Theorem C04_codegen_verifies_partial :
+  forall p : prog, accepts p = true -> verify (codegen p) = true.
+Proof. exact codegen_verifies. Qed.
+
+Theorem C04_accepted_program_never_faults :
+  forall p : prog, accepts p = true ->
+  forall (E : env) (lines : list logline),
+    Forall checked (fst (run_lines E (codegen p) lines (init_vm (codegen p)))).
+Proof.
+  intros p H E lines. apply C04_verify_sound_lines. apply C04_codegen_verifies_partial. exact H.
+Qed.
+
+(* counter c by k ; gauge g
+   /x(\d+)/ { c[$1]++ ; $1 > 3 { g = float($1) } else { stop } ; del c[$1] after 1h } ; otherwise { g = 0.5 } *)
+Definition ex_prog : prog :=
+  mkprog
+    [mkmdecl MCounter TInt 1; mkmdecl MGauge TFloat 0]
+    (BCons (SCond (EMatch 0)
+       (BCons (SInc 0 (XCons (ECap 0 1 TStr) XNil))
+       (BCons (SCondElse (ECmp CGt TInt true (ECap 0 1 TInt) (EInt 3))
+                 (BCons (SSet TFloat 1 XNil (EConv TInt TFloat (ECap 0 1 TInt))) BNil)
+                 (BCons SStop BNil))
+       (BCons (SExpire 0 (XCons (ECap 0 1 TStr) XNil) 3600000000000) BNil))))
+    (BCons (SOtherwise (BCons (SSet TFloat 1 XNil (EFloat 4602678819172646912%N)) BNil)) BNil))
+    [[120%N]] [].
+
+Example C04_ex_accepts : accepts ex_prog = true /\ length (o_prog (codegen ex_prog)) = 43%nat.
+Proof. split; vm_compute; reflexivity. Qed.
+
+(* the predicate excludes the known families *)
+Example C04_accepts_excludes :
+  accepts (mkprog [] (BCons (SSettime (ELen (ECap 0 1 TStr))) BNil) [[120%N]] []) = false /\
+  accepts (mkprog [mkmdecl MGauge TFloat 0] (BCons (SSet TInt 0 XNil (EInt 3)) BNil) [] []) = false /\
+  accepts (mkprog [mkmdecl MCounter TInt 0]
+             (BCons (SCond (EArith ASub TFloat (EFloat 0) (EFloat 0)) (BCons (SInc 0 XNil) BNil)) BNil) [] []) = false.
+Proof. repeat split; vm_compute; reflexivity. Qed.
+
 Print Assumptions C04_verify_sound.
+Print Assumptions C04_codegen_verifies_partial.
+Print Assumptions C04_accepted_program_never_faults.
+Print Assumptions C04_ex_accepts.
+Print Assumptions C04_accepts_excludes.
 Print Assumptions C04_verify_sound_lines.
 Print Assumptions C04_fuel_enough.
 Print Assumptions C04_init_store_ok.
